@@ -9,6 +9,7 @@ from engine import pat
 from engine.util import where
 
 RULES = {
+    "R-06.10": "NameDict.get_deepest_match agrees with is_superdomain only if max_depth covers every key: the private store is filled through __setitem__ alone (which maintains max_depth) - __init__ starts from an empty dict and routes initial contents through update()",
     "R-06.9": "inside dns/name.py a Name is never compared by identity (`is` / `is not`) with the module's Name constants root / empty: equal names are distinct objects (Name([]), a relativized origin, an unpickled copy), so identity makes equal names behave differently",
     "R-06.8": "the predecessor padding never builds a label above 63 octets: _pad_to_max_name appends 63-octet labels while more than 64 octets are left (each costs 64 on the wire) and a last label of needed-1 <= 63 octets; _pad_to_max_label extends a label by at most 63 - len(label)",
     "R-06.1": "each rich comparison of Name returns fullcompare(other)[1] <op> 0 with the operator its name says; foreign operands give NotImplemented / False / True",
@@ -373,6 +374,25 @@ def run(model, rep, tier):
     pl = model.func("dns.name._pad_to_max_label")
     rep.check(pat.has_expr(pl.node, "min(63 - __length, __remaining)") or pat.has_expr(pl.node, "min(__remaining, 63 - __length)"), "R-06.8", pl.qualname, where(pl, pl.node),
               "a label is extended by min(63 - len(label), room left in the name)", "the label extension is no longer bounded by 63 - len(label) and the room left in the name", stmt="pad-label")
+    # ---------------------------------------------------------------- R-06.10
+    nd = model.cls("dns.namedict.NameDict")
+    n_st = 0
+    for m_ in sorted(nd.methods.values(), key=lambda g: g.qualname):
+        for x in ast.walk(m_.node):
+            tg = None
+            if isinstance(x, ast.Assign) and any(isinstance(t_, ast.Attribute) and t_.attr.endswith("__store") for t_ in x.targets):
+                tg, val = x, x.value
+                n_st += 1
+                empty = (isinstance(val, ast.Call) and src(val.func) == "dict" and not val.args and not val.keywords) or (isinstance(val, ast.Dict) and not val.keys)
+                rep.check(m_.name == "__init__" and empty, "R-06.10", m_.qualname, where(m_, x), "the store starts empty",
+                          f"`{src(x)[:60]}` fills the store directly: keys entered this way never pass __setitem__, so max_depth / max_depth_items do not count them and get_deepest_match misses superdomains "
+                          "deeper than max_depth", stmt="store-empty-init")
+            if isinstance(x, ast.Call) and isinstance(x.func, ast.Attribute) and x.func.attr in ("update", "setdefault", "__setitem__") and isinstance(x.func.value, ast.Attribute) and x.func.value.attr.endswith("__store"):
+                n_st += 1
+                rep.bad("R-06.10", m_.qualname, where(m_, x), f"`{src(x)[:60]}` adds keys to the store without the max_depth bookkeeping of __setitem__", stmt="store-bulk-write")
+    sets_ = [x for m_ in nd.methods.values() if m_.name == "__setitem__" for x in ast.walk(m_.node) if isinstance(x, ast.Call) and src(x.func).endswith("__update_max_depth")]
+    rep.check(bool(sets_), "R-06.10", "dns.namedict.NameDict.__setitem__", nd.file, "__setitem__ maintains max_depth", "__setitem__ no longer calls __update_max_depth", stmt="setitem-updates-depth")
+    rep.floor("R-06.10", n_st, 1)
     # ---------------------------------------------------------------- R-06.9
     nm = model.modules["dns.name"]
     name_consts = set()
@@ -409,6 +429,8 @@ def _blocks(fn):
 
 
 WITNESSES = [
+    {"id": "c06-namedict-init-fills-store", "rule": "R-06.10", "file": "dns/namedict.py", "expect": "fires",
+     "old": "        self.__store = dict()\n", "new": "        self.__store = dict(*args, **kwargs)\n"},
     {"id": "c06-parent-empty-by-identity", "rule": "R-06.9", "file": "dns/name.py", "expect": "fires",
      "old": "        if self == root or self == empty:\n            raise NoParent", "new": "        if self == root or self is empty:\n            raise NoParent"},
     {"id": "c06-le-compares-with-value-set", "rule": "R-06.1", "file": "dns/name.py", "expect": "fires",
